@@ -290,6 +290,22 @@ pub fn run_c04(tier: Tier) -> i32 {
         ]),
         "C04",
     ));
+    // four competing blocks in one slot: the most a correct validator ever casts is its initial vote
+    // (notar or skip) plus notar-fallback votes for three other blocks - in every order
+    fams.push(PoolSlotSys::new(
+        "four-blocks-notar-plus-three-fallbacks",
+        t5.clone(),
+        0,
+        cat(vec![votes(N, 1, 0, &[1]), votes(NF, 1, 1, &[1]), votes(NF, 1, 2, &[1]), votes(NF, 1, 3, &[1]), votes(NF, 1, 3, &[1]), votes(NF, 1, 3, &[2])]),
+        "C04",
+    ));
+    fams.push(PoolSlotSys::new(
+        "four-blocks-skip-plus-three-fallbacks",
+        t5.clone(),
+        0,
+        cat(vec![votes(S, 1, 0, &[1]), votes(NF, 1, 1, &[1]), votes(NF, 1, 2, &[1]), votes(NF, 1, 3, &[1]), votes(N, 1, 0, &[2]), votes(NF, 1, 3, &[2])]),
+        "C04",
+    ));
     if tier == Tier::Thorough {
         let e5 = Arc::new(make_epoch(&[1, 1, 1, 1, 1]));
         fams.push(PoolSlotSys::new(
